@@ -222,7 +222,7 @@ def c31_runs(tier):
                 exs = ALL
             runs += batch('c31_batch', 3, gt, exs, 0, script, nlo=1)
     # 4 nodes: two disjoint bidirectional sets and their merging only exist from here on
-    for o in ((0, 2) if quick else (0, 1, 2, 3)):
+    for o in ((0, 2, 3) if quick else (0, 1, 2, 3)):  # o=3 (dependents declared before their predecessors) is where pass-order defects of the propagator show
         runs += batch('c31_batch', 4, 1, '0' if quick else '013', 0, 0, bmax=4, s=0, o=o)
     runs += batch('c31_batch', 4, 0, '0', 0, 0, o=0)
     if not quick:
